@@ -383,11 +383,12 @@ class Engine:
             cells = o.cells
             cc = cells.get(off)
             if not (cc is not None and cc[0] == nbytes):
+                # cells overlapping [off, off+nbytes) are split into bytes; the bytes inside the range are then dropped
                 for k in range(off - 15, off + nbytes):
-                    cc = cells.get(k)
-                    if cc is not None and k != off and k + cc[0] > off and k < off + nbytes:
+                    c2 = cells.get(k)
+                    if c2 is not None and c2[0] > 1 and k + c2[0] > off and k < off + nbytes:
                         self._split_cell(o, k)
-                if cc is not None and off in cells and cells[off][0] > nbytes: self._split_cell(o, off)
+                for k in range(off, off + nbytes): cells.pop(k, None)
             cells[off] = (nbytes, v); return
         for r in o.regions:
             if isinstance(v, (Undef, Ptr, PtrIte)): raise Unsupported("store of non-integer into array region")
